@@ -12,8 +12,10 @@ import automut as A
 
 ROOT = A.ROOT
 
+BASE = "seeded"
+
 def job(repo, verif, sid, pid, seed, tier):
-    d = os.path.join(ROOT, "seeded", sid)
+    d = os.path.join(ROOT, BASE, sid)
     A.sh(["git", "-C", repo, "checkout", "--", "."])
     rc, out = A.sh(["git", "-C", repo, "apply", os.path.join(d, "patch.diff")])
     if rc != 0:
@@ -36,16 +38,19 @@ def main():
     a = sys.argv[1:]
     def opt(n, d=None): return a[a.index(n) + 1] if n in a else d
     checks = opt("--checks"); seeds = (opt("--seeds") or "1,2,3").split(","); workers = int(opt("--workers", "8")); tier = opt("--tier", "quick")
-    skip = {"--checks", "--seeds", "--workers", "--tier"}
+    skip = {"--checks", "--seeds", "--workers", "--tier", "--base"}
+    global BASE
+    BASE = opt("--base", "seeded")
     ids = []; i = 0
     while i < len(a):
         if a[i] in skip: i += 2
         else: ids.append(a[i]); i += 1
-    if ids == ["all"]: ids = sorted(d for d in os.listdir(os.path.join(ROOT, "seeded")) if os.path.isdir(os.path.join(ROOT, "seeded", d)))
+    if ids == ["all"]: ids = sorted(d for d in os.listdir(os.path.join(ROOT, BASE)) if os.path.isdir(os.path.join(ROOT, BASE, d)))
     jobs = queue.Queue(); results = {}
     for sid in ids:
-        meta = json.load(open(os.path.join(ROOT, "seeded", sid, "meta.json")))
-        for pid in (checks.split(",") if checks else [meta["breaks"]]):
+        meta = json.load(open(os.path.join(ROOT, BASE, sid, "meta.json")))
+        all20 = [f"C{i:02d}" for i in range(1, 21)]
+        for pid in (all20 if checks == "all" else checks.split(",") if checks else [meta["breaks"]]):
             for sd in seeds: jobs.put((sid, pid, sd))
     ws = [A.setup_worker(40 + k) for k in range(workers)]
     lock = threading.Lock()
@@ -61,7 +66,7 @@ def main():
     for t in ts: t.join()
     for sid in ids:
         res = results.get(sid, {})
-        mp = os.path.join(ROOT, "seeded", sid, "meta.json")
+        mp = os.path.join(ROOT, BASE, sid, "meta.json")
         meta = json.load(open(mp))
         cs = {k.split("/")[0] for k in res}
         meta["our_checks"] = {**{k: v for k, v in (meta.get("our_checks") or {}).items() if k.split("/")[0] not in cs}, **res}
